@@ -206,8 +206,34 @@ func init() {
 				re.Prealloc = hr.Intn(2) == 0
 				rep.count("scenario:bound-an-unbounded-file-that-is-larger", 1)
 			}
+			directed := false
+			if i%4 == 1 {
+				// a full bounded file whose overwrite / mapping / free-list pages live past the size limit (overflow
+				// area); the limit is then raised or removed and new pages are allocated and written
+				cfg = engine.Config{PageSize: 1024, MaxSize: uint64(64+hr.Intn(32)) * 1024, InitMetaArea: uint32(hr.Intn(2) * 2)}
+				prior = fillAllOps(hr)
+				prior = append(prior, engine.Op{Kind: "begin", Overflow: true, WALLimit: 1000})
+				for k := 2 + hr.Intn(8); k > 0; k-- {
+					prior = append(prior, engine.Op{Kind: "setfull", P: hr.Intn(1 << 16), Seed: 1 + hr.Intn(1000)})
+				}
+				prior = append(prior, engine.Op{Kind: "commit"})
+				re.MaxSize = []uint64{0, 0, 256 * 1024, 1 << 20}[hr.Intn(4)]
+				re.Flags = uint64(txfile.FlagUpdMaxSize)
+				if re.MaxSize == 0 {
+					re.Flags |= uint64(txfile.FlagUnboundMaxSize)
+				}
+				re.Prealloc = false
+				directed = true
+				rep.count("scenario:raise-the-limit-of-a-file-with-an-overflow-area", 1)
+			}
 			var further []engine.Op
-			if hr.Intn(2) == 0 {
+			if directed {
+				further = []engine.Op{{Kind: "begin"}, {Kind: "alloc", N: 8 + hr.Intn(16)}}
+				for k := 0; k < 12; k++ {
+					further = append(further, engine.Op{Kind: "setfull", P: 1<<15 - k*3, Seed: 1 + hr.Intn(1000)})
+				}
+				further = append(further, engine.Op{Kind: "commit"}, engine.Op{Kind: "verify"}, engine.Op{Kind: "reopen"}, engine.Op{Kind: "verify"})
+			} else if hr.Intn(2) == 0 {
 				further = fillOps(hr, 2+hr.Intn(6))
 			} else {
 				further = gen.History(hr, prof)
